@@ -87,7 +87,7 @@ fn first_diff_step(ta: &[f64], ya: &[Vec<f64>], tb: &[f64], yb: &[Vec<f64>], tma
 pub fn run(ctx: &Ctx) -> (Report, Meta) {
     let k_copy = 300.0;
     let meta = Meta::new(
-        "pair monitors on generated problems (bounded benchmark problems and closed-form composites), 6 methods, both directions, tolerances, optional first_step/max_step/events: (1) time reflection z' = -f(-s,z): t' = -t and y' = y bitwise (explicit methods; implicit with user Jacobian; finite-difference Jacobian to rounding), event times mirror to root-finder accuracy; (2) scaling y0 and atol by 2^k, k in +-{1,7,40}, on linear homogeneous systems: times bitwise equal, states exactly scaled; (3) scalar tolerance vs constant vector: bitwise identical t, y, counters; (4) m in {2,4,8,16} identical copies: first reported interval identical to 1e-12, accepted/rejected counts equal (a difference of at most max(1, 2%) is an inconclusive tie), copies bitwise equal inside a run, each copy within the accuracy bound of the exact solution; non-trivial = pair with >= 3 accepted steps (distinct by scenario hash and relation)",
+        "pair monitors on generated problems (bounded benchmark problems and closed-form composites), 6 methods, both directions, tolerances, optional first_step/max_step/events: (1) time reflection z' = -f(-s,z): t' = -t and y' = y bitwise (explicit methods; implicit with user Jacobian; finite-difference Jacobian to rounding), event times mirror to root-finder accuracy; (2) scaling y0 and atol by 2^k, k in +-{1,7,40}, on linear homogeneous systems: times bitwise equal, states exactly scaled; (3) scalar tolerance vs constant vector: bitwise identical t, y, counters; (4) m in {2,4,8,16} identical copies: first reported interval identical to 1e-12, accepted/rejected counts equal (a difference of at most max(2, 5%) accepted / max(4, 50%) rejected steps is an inconclusive tie), copies bitwise equal inside a run, each copy within the accuracy bound of the exact solution; non-trivial = pair with >= 3 accepted steps (distinct by scenario hash and relation)",
     )
     .assume("multiplication by 2^k and negation are exact in binary floating point (no overflow/underflow in the chosen ranges), so relations (1)-(3) are exact identities of the arithmetic actually executed")
     .thresholds(json!({"copies_accuracy_factor": k_copy, "copies_first_interval_rel": 1e-12}))
@@ -96,7 +96,7 @@ pub fn run(ctx: &Ctx) -> (Report, Meta) {
     .floor("scalar_vector_pairs", 300)
     .floor("copies_pairs", 200)
     .floor("reflection_pairs_with_events", 50);
-    let n = ctx.size(2_400, 100_000);
+    let n = ctx.size(16_000, 1_600_000);
     let g = GenOpts { allow_max_step: true, allow_first_step: true, bidirectional_problems: true, max_span: 20.0, ..Default::default() };
     let rep = par_for(n, "C13", |i, rep| {
         let case_id = format!("case/{}", i);
@@ -235,10 +235,12 @@ pub fn run(ctx: &Ctx) -> (Report, Meta) {
                 }
                 let nn: usize = bases.iter().map(|b| b.dim()).sum();
                 let mix = if nn >= 2 && rng.bool() { Some(Mix::random(nn, &mut rng)) } else { None };
+                // the exponential warp is kept mild over the whole interval (phi' between 1/3 and 3)
+                let tmax = scn.x0.abs().max(scn.xend.abs()).max(1.0);
                 let warp = match rng.below(3) {
                     0 => Warp::Id,
                     1 => Warp::Sin { a: rng.range(-0.5, 0.5), b: rng.range(0.5, 2.0) },
-                    _ => Warp::Exp { a: rng.range(-0.1, 0.1) + 0.011 },
+                    _ => Warp::Exp { a: rng.sign() * rng.range(0.1, 1.0) / tmax },
                 };
                 let c = Composite::new(bases, warp, mix, scn.x0);
                 scn.y0 = c.y0();
@@ -271,6 +273,12 @@ pub fn run(ctx: &Ctx) -> (Report, Meta) {
                         return;
                     }
                 };
+                // exact scaling needs the absence of overflow/underflow: an unstable fixed-step run that blows up is not a witness
+                let big = a.y.iter().chain(b.y.iter()).flat_map(|v| v.iter()).any(|x| !x.is_finite() || x.abs() > 1e100 || (*x != 0.0 && x.abs() < 1e-100));
+                if big {
+                    rep.inconclusive("scaling_overflow_or_underflow_regime");
+                    return;
+                }
                 rep.count("scaling_pairs", 1);
                 if a.naccpt >= 3 {
                     rep.nontrivial(scn_hash(&scn, &c) ^ 0x1111);
@@ -415,11 +423,14 @@ pub fn run(ctx: &Ctx) -> (Report, Meta) {
                 // (b) step counts
                 let da = (a.naccpt as i64 - b.naccpt as i64).abs();
                 let dr = (a.nrejct as i64 - b.nrejct as i64).abs();
-                let allow = 1.max((0.02 * a.naccpt as f64).ceil() as i64);
+                // once the RMS sums round differently the controllers take slightly different decisions (measured in
+                // the design round: the difference does not stay at 1e-16); small count differences are ties
+                let allow = 2.max((0.05 * a.naccpt as f64).ceil() as i64);
+                let allow_rej = 4.max((0.5 * a.nrejct.max(b.nrejct) as f64).ceil() as i64);
                 rep.worst("copies_accepted_count_difference_rel", da as f64 / a.naccpt.max(1) as f64);
                 if da == 0 && dr == 0 {
                     rep.count("copies_pairs_with_equal_counts", 1);
-                } else if da <= allow && dr <= allow.max(2) {
+                } else if da <= allow && dr <= allow_rej {
                     rep.inconclusive("copies_step_count_tie");
                 } else {
                     case["counters"] = json!({"single": [a.naccpt, a.nrejct], "copies": [b.naccpt, b.nrejct]});
